@@ -14,7 +14,7 @@ KINDS = {
 COMMON = {"crash"}          # a crash of the real code that is not an access to poisoned memory counts for every property
 OTHER = {"lock-at-callback", "deadlock"}     # C05's ("lock-balance": unlock of an unlocked mutex / a mutex held at return -> C04)
 
-RULE = ("seeded op scripts (allocate/free/deallocate/realloc/get_size/user writes/digests/structure dumps on slots) over 17 "
+RULE = ("seeded op scripts (allocate/free/deallocate/realloc/get_size/user writes/digests/structure dumps on slots) over 20 "
         "template configurations (page 0x1000/0x4000, slab/sb 2^16, 2^18, 0x1C000/0x20000, 4/10/13 buckets, aligned/unaligned map, "
         "with/without poison hooks) and 6 generator modes (mixed sizes at every class boundary, fill/drain of whole slabs, realloc "
         "class pairs, map-failure injection with retry, large path with region recycling; churn ops = tight allocate/free loops, 2^32 pairs in the thorough tier of C01/C02); non-trivial = distinct script in which "
@@ -70,6 +70,8 @@ def is_long(lines):
         t = l.split()
         if t and t[0] == "churn" and len(t) >= 3 and int(t[2]) > 5000000:
             return True
+        if t and t[0] == "fill" and len(t) >= 3 and int(t[2]) > 100000:
+            return True
     return False
 
 def nontrivial(cid, lines, ri):
@@ -124,6 +126,8 @@ def run(c, focus="C01"):
                 c.count("slab_op_" + t[0])
                 if t[-1] == "fail":
                     c.count("slab_env_fail")
+            elif t[0] == "fill":
+                c.count("slab_op_fill"); c.count("slab_fill_blocks", int(t[2]))
             elif t[0] == "churn":
                 c.count("slab_op_churn"); c.count("slab_churn_pairs", int(t[2]))
             elif t[0] in ("f", "g", "w", "c", "v"):
@@ -168,7 +172,7 @@ def run(c, focus="C01"):
         if "assert" in ri["lines"]:
             # the generator only writes admissible histories: an FRG_ASSERT firing is a failure of C01's "never stops"
             orc("assert", "an FRG_ASSERT of the pool fired on an admissible history (after %d output lines)" % ri["lines"].index("assert"))
-            if any(l.startswith("churn ") for l in lines):
+            if any(l.startswith("churn ") or l.startswith("fill ") for l in lines):
                 # C02: arbitrarily long alloc/free churn must keep working
                 orc("churn", "an FRG_ASSERT of the pool fired after alloc/free churn (after %d output lines)" % ri["lines"].index("assert"))
         if rm is None:
